@@ -770,28 +770,22 @@ def _consumers(model, rep):
 
 
 def _quadrature_guard(model, rep):
+    """trial and test bases with different numbers of quadrature points must
+    be rejected (symbolic run with concrete, different point counts)"""
     fn = model.func("skfem.assembly.form.bilinear_form",
                     "BilinearForm._assemble")
-    found = False
-    for n in walk_no_nested(fn.node):
-        if isinstance(n, ast.If):
-            node = n
-            while True:
-                t = src(node.test)
-                if "ubasis.X.shape[-1]" in t and "vbasis.X.shape[-1]" in t \
-                        and "!=" in t and any(isinstance(b, ast.Raise)
-                                              for b in node.body):
-                    found = True
-                if len(node.orelse) == 1 and isinstance(node.orelse[0],
-                                                        ast.If):
-                    node = node.orelse[0]
-                else:
-                    break
-    _v(rep, "C01-R1", found, "BilinearForm._assemble:quadrature-guard",
+    sizes = {"u": 2, "v": 3}
+    r_bad = Run(model, "BilinearForm", "_assemble", sizes,
+                nqp={"u": 3, "v": 4})
+    r_ok = Run(model, "BilinearForm", "_assemble", sizes,
+               nqp={"u": 4, "v": 4})
+    ok = getattr(r_bad, "raised", None) is not None and \
+        getattr(r_ok, "raised", None) is None
+    _v(rep, "C01-R1", ok, "BilinearForm._assemble:quadrature-guard",
        "different numbers of quadrature points in trial and test basis "
-       "raise", fn.path, "BilinearForm._assemble",
-       "trial and test bases with different quadratures are not rejected",
-       fn.lineno)
+       "raise, equal numbers assemble", fn.path, "BilinearForm._assemble",
+       "trial and test bases with different quadratures are not rejected "
+       "(or equal ones are)", fn.lineno)
 
 
 def _default_parameters(model, rep):
